@@ -158,15 +158,22 @@ inductive TsigVerdict where
   | accepted
 deriving Repr, DecidableEq
 
+/-- `tsigBuffer` fails before anything is hashed when its scratch buffers are too small: the request MAC is packed into
+    `len(requestMAC)` octets (hex digits), which a MAC of one octet does not fit with its length prefix; the variables
+    into `DefaultMsgSize` = 4096 octets -/
+def tsigBufferOK (v : TsigVars) (requestMAC : Bytes) (timersOnly : Bool) : Bool :=
+  requestMAC.length != 1 && decide ((tsigVarPart v timersOnly).length ≤ 4096)
+
 /-- `tsigVerify(msg, provider, requestMAC, timersOnly, now)`: `check digest algorithm mac` stands for
-    `provider.Verify` -/
+    `provider.Verify`; `stripError`: an error before the MAC function is asked -/
 def tsigVerifyM (msg requestMAC : Bytes) (timersOnly : Bool) (now wall : Nat) (check : Bytes → Bytes → Bytes → Bool) :
     TsigVerdict :=
   match stripTsig msg with
   | .err => .stripError
   | .ok s =>
     let v := tsigVarsOf s wall
-    if check (stripDigest s requestMAC timersOnly wall) (fieldB s.body 0) (fieldB s.body 4) then
+    if !tsigBufferOK v requestMAC timersOnly then .stripError
+    else if check (stripDigest s requestMAC timersOnly wall) (fieldB s.body 0) (fieldB s.body 4) then
       if tsigTimeOk now v.timeSigned v.fudge then .accepted else .badTime
     else .badMac
 
